@@ -2,18 +2,21 @@
    model/UntrustedPanicSites.v).  The list of sites is HAND-MADE (a site the
    reading missed is not in it); Coq checks the coverage column, and only for
    the two constructors that take the function containing the site as a
-   FUNCTIONAL of the panicking operation (proofs/UntrustedSiteFunctionals.v):
-     CModel op w F reach f same pf   op can panic (w); F is the body of the model
-                           function f over the operation (same : F op = f); with
-                           an always-panicking operation F panics on some input
-                           (reach: the operation is really called); f never panics
-     CLemma raw w F reach pf         the same for the statements AS WRITTEN in the
-                           Go function (test in front of the expression included)
-                           over the raw machine-integer operation
-   CArgued / CStdlib / CHarnessOnly entries carry NO theorem; lemma or theorem
-   names inside their text are pointers for the reader, not checked.  The Fail
-   tests at the end show that the trivial inhabitants the fourth audit found
-   for the earlier shapes no longer type-check. *)
+   functional of a GUARD SWITCH and of the panicking operation
+   (proofs/UntrustedSiteFunctionals.v):
+     CModel op F necessary f same pf   F true op is the body of the model function
+                           f (same); with the test(s) in front of the expression
+                           deleted (F false) the REAL operation panics on some
+                           input (necessary: the guard is needed and the input
+                           reaches the operation); f never panics (pf)
+     CLemma raw F necessary pf         the same for the statements AS WRITTEN in the
+                           Go function over the raw machine-integer operation
+   What this does not say: that F true transcribes the Go function and that the
+   switched test is the one the Go code has - that is reading.  CArgued / CStdlib
+   / CHarnessOnly entries carry NO theorem; lemma or theorem names inside their
+   text are pointers for the reader, not checked.  At the end: the inhabitants
+   the fourth and fifth audits found for the earlier shapes, adapted to this
+   one, are refuted. *)
 From Coq Require Import String List NArith ZArith.
 From Tink Require Import Bytes UntrustedConsts Untrusted UntrustedSpec UntrustedProofs.
 From Tink Require Import UntrustedSites UntrustedSitesProofs UntrustedPanicSites.
@@ -51,7 +54,7 @@ Definition panic_sites : list site := [
     (CArgued "nil test two lines above; the model's read_encrypted has no Panic constructor for it");
   mkSite "keyset/handle.go" "Handle.Entry" "h.entries[i]" KIndex
     "if h == nil { error }; if i < 0 || i >= h.Len() { error }"
-    (CLemma entry_raw2 entry_raw2_panics entry_F entry_F_reach entry_F_np);
+    (CLemma entry_raw2 entry_F entry_F_necessary entry_F_np);
   mkSite "keyset/handle.go" "Handle.Primary / Len / Public" "h.primaryKeyEntry, h.entries" KNilDeref
     "if h == nil { return error / 0 }"
     (CArgued "a handle returned by a reader is non-nil whenever err == nil");
@@ -84,13 +87,13 @@ Definition panic_sites : list site := [
     (CArgued "returns an error; no panic in the function");
   mkSite "internal/ec/ec.go" "BigIntBytesToFixedSizeBuffer" "make([]byte, size-len(bigIntBytes), size)" KMake
     "if len(bigIntBytes) < size (so 0 < size-len <= size); callers pass size = 32/48/66 or +1"
-    (CLemma make2 make2_panics bigint_make_F bigint_make_F_reach bigint_make_F_np);
+    (CLemma make2 bigint_make_F bigint_make_F_necessary bigint_make_F_np);
   mkSite "internal/ec/ec.go" "BigIntBytesToFixedSizeBuffer" "bigIntBytes[i] for i < len(bigIntBytes)-size" KIndex
     "reached only when len(bigIntBytes) > size >= 0, so 0 <= i < len"
-    (CLemma index2 index2_panics bigint_index_F bigint_index_F_reach bigint_index_F_np);
+    (CArgued "no test is needed: the loop condition i < len(bigIntBytes)-size with size >= 0 (a constant of the callers) keeps i below len; with the loop in place there is no guard whose removal makes the index panic, so no lemma of the guard-switch shape is claimed; that the as-written body never panics for size >= 0 is theorem C14_bigint_buffer_as_written_never_panics (named here, not checked by the table)");
   mkSite "internal/ec/ec.go" "BigIntBytesToFixedSizeBuffer" "bigIntBytes[len(bigIntBytes)-size:]" KSlice
     "len(bigIntBytes) > size >= 0"
-    (CModel slice3 slice3_panics fixed_size_F fixed_size_F_reach fixed_size2 fixed_size_F_same fixed_size2_np);
+    (CLemma slice3z bigint_slice_F bigint_slice_F_necessary bigint_slice_F_np);
   mkSite "internal/outputprefix/outputprefix.go" "Tink / Legacy" "binary.BigEndian.PutUint32(prefix[1:], id)" KSlice
     "prefix := make([]byte, 5): constant size"
     (CArgued "constant bounds");
@@ -102,37 +105,37 @@ Definition panic_sites : list site := [
     (CArgued "serialisation path of an accepted key; encodingLength is a byte length of the modulus");
   mkSite "signature/ecdsa/protoserialization.go" "encodePoint" "make([]byte, 1+2*coordinateSize); encodedPoint[0] = 0x04" KMake
     "coordinateSize in {32, 48, 66} (coordinateSizeForCurve errors otherwise)"
-    (CLemma make2 make2_panics new_point_make_F new_point_make_F_reach new_point_F_np);
+    (CArgued "no test is needed: the size 1+2*coordinateSize is positive for every coordinateSize >= 0 and coordinateSize is 32 / 48 / 66: make cannot panic here whatever tests are deleted, so no lemma of the guard-switch shape is claimed");
   mkSite "signature/ecdsa/protoserialization.go" "encodePoint" "encodedPoint[xStartPos:], encodedPoint[yStartPos:] with xStartPos = 1+c-len(x)" KSlice
     "x, y are results of BigIntBytesToFixedSizeBuffer(., c): exactly c bytes"
-    (CLemma slice3z slice3z_panics new_point_slice_F new_point_slice_F_reach new_point_F_np);
+    (CLemma slice3z new_point_slice_F new_point_slice_F_necessary new_point_slice_F_np);
   mkSite "signature/ecdsa/protoserialization.go" "newPublicKeyFromProto" "encodePoint(x, y, c) after two BigIntBytesToFixedSizeBuffer(., c)" KSlice
     "as above"
-    (CModel encode_point3 encode_point3_panics ecdsa_pub_of_F ecdsa_pub_of_F_reach ecdsa_pub_of4 ecdsa_pub_of_F_same ecdsa_pub_of4_np);
+    (CModel encode_point3 ecdsa_pub_of_F ecdsa_pub_of_F_necessary ecdsa_pub_of4 ecdsa_pub_of_F_same ecdsa_pub_of4_np);
   mkSite "signature/ecdsa/protoserialization.go" "newPublicKeyFromProto" "protoECDSAKey.GetParams().GetCurve() etc. (nil params sub-message)" KNilDeref
     "getters"
     (CArgued "getters are total in the model: lemma absent_submessage_reads_as_defaults (an absent sub-message reads as all defaults), named here, not checked by the table");
   mkSite "signature/ecdsa/protoserialization.go:130" "validateEncodingAndGetCoordinates (serializer)" "publicPoint[0] != 0x04" KIndex
     "if len(publicPoint) != 2*coordinateSize+1 { return error } (the statement before; coordinateSize in {32,48,66})"
-    (CLemma index2 index2_panics serializer_first_byte_F serializer_first_byte_F_reach serializer_first_byte_F_np);
+    (CLemma index2 serializer_first_byte_F serializer_first_byte_F_necessary serializer_first_byte_F_np);
   mkSite "signature/ecdsa/protoserialization.go:133" "validateEncodingAndGetCoordinates (serializer)" "publicPoint[1:], xy[:coordinateSize], xy[coordinateSize:]" KSlice
     "if len(publicPoint) != 2*coordinateSize+1 { return error } (same test)"
-    (CLemma slice3z slice3z_panics serializer_coords_F serializer_coords_F_reach serializer_coords_F_np);
+    (CLemma slice3z serializer_coords_F serializer_coords_F_necessary serializer_coords_F_np);
   mkSite "signature/ecdsa/signer.go, verifier.go" "NewSigner / NewVerifier" "publicPoint[1:], xy[:len(xy)/2], xy[len(xy)/2:]" KSlice
     "NewPublicKey validated the point (len >= 1)"
-    (CModel ecdsa_point_slices ecdsa_point_slices_panics ecdsa_prim_F ecdsa_prim_F_reach parse_then_prim4 ecdsa_prim_F_same parse_then_prim4_np);
+    (CModel ecdsa_point_slices ecdsa_prim_F ecdsa_prim_F_necessary parse_then_prim4 ecdsa_prim_F_same parse_then_prim4_np);
   mkSite "signature/ecdsa/key.go" "NewPublicKey / NewPrivateKeyFromPublicKey" "ecdh curve.NewPublicKey(point), curve.NewPrivateKey(scalar)" KStdlib
     "none needed: crypto/ecdh returns errors for wrong lengths, off-curve points, the point at infinity, out-of-range scalars"
     (CStdlib "ec_point_ok / ec_pub_of_priv of the record stdlib (oracle ops c14_ecdh_point, c14_ecdh_pub)");
   mkSite "signature/ed25519/key.go" "NewPrivateKey / NewPrivateKeyWithPublicKey" "ed25519.NewKeyFromSeed(seed) (panics unless len(seed) == 32)" KStdlib
     "if privateKeyBytes.Len() != 32 { return error }; if pubKey == nil { return error }"
-    (CModel from_seed2 from_seed2_panics parse_ed25519_priv_F parse_ed25519_priv_F_reach parse_ed25519_priv4 parse_ed25519_priv_F_same parse_ed25519_priv4_np);
+    (CModel from_seed2 parse_ed25519_priv_F parse_ed25519_priv_F_necessary parse_ed25519_priv4 parse_ed25519_priv_F_same parse_ed25519_priv4_np);
   mkSite "signature/ed25519/key.go" "NewPrivateKey" "privKey.Public().(ed25519.PublicKey)" KTypeAssert
     "ed25519.PrivateKey.Public always returns ed25519.PublicKey"
     (CArgued "documented dynamic type");
   mkSite "signature/ed25519/signer.go" "NewSigner" "ed25519.NewKeyFromSeed(privateKey.PrivateKeyBytes())" KStdlib
     "a *PrivateKey only exists with a 32-byte seed (constructors above)"
-    (CModel from_seed2 from_seed2_panics ed25519_signer_F ed25519_signer_F_reach ed25519_signer4 ed25519_signer_F_same ed25519_signer4_np);
+    (CModel from_seed2 ed25519_signer_F ed25519_signer_F_necessary ed25519_signer4 ed25519_signer_F_same ed25519_signer4_np);
   mkSite "signature/rsassapkcs1, rsassapss, jwt/jwtrsassapkcs1, jwt/jwtrsassapss protoserialization.go" "parsePublicKey / ParseKey" "int(exponent.Int64()) (four files, same statement)" KIntConv
     "if !exponent.IsInt64() { return error }"
     (CArgued "integer conversion: truncates, does not panic; lemma rsa_exponent_fits_int64 and the single regression vector of theorem C14_rsa_exponent_truncation_rejected (one key type), named here, not checked by the table; the four parsers are compared with the model on the directed exponent grid of gen.go");
@@ -159,22 +162,22 @@ Definition panic_sites : list site := [
     (CArgued "integer conversion: does not panic; the value is compared with 64 / 96 / 128");
   mkSite "internal/signature/slhdsa/slhdsa.go" "DecodePublicKey" "pkEnc[0:p.n], pkEnc[p.n:2*p.n]" KSlice
     "if len(pkEnc) != p.PublicKeyLength() { return error }"
-    (CLemma slice3z slice3z_panics slh_decode_pk_F slh_decode_pk_F_reach slh_decode_pk_F_np);
+    (CLemma slice3z slh_decode_pk_F slh_decode_pk_F_necessary slh_decode_pk_F_np);
   mkSite "internal/signature/slhdsa/slhdsa.go" "DecodeSecretKey" "skEnc[0:n], [n:2n], [2n:3n], [3n:4n]" KSlice
     "if len(skEnc) != p.SecretKeyLength() { return error }"
-    (CModel slice3 slice3_panics parse_slhdsa_priv_F parse_slhdsa_priv_F_reach parse_slhdsa_priv3 parse_slhdsa_priv_F_same parse_slhdsa_priv3_np);
+    (CModel slice3 parse_slhdsa_priv_F parse_slhdsa_priv_F_necessary parse_slhdsa_priv3 parse_slhdsa_priv_F_same parse_slhdsa_priv3_np);
   mkSite "signature/mldsa/key.go, jwt/jwtmldsa/key.go" "NewPublicKey" "checkPublicKeyLengthForInstance(len(keyBytes), instance)" KStdlib
     "length compared before DecodePublicKey"
     (CArgued "length test in front of the decoder; the model's parser has no Panic constructor");
   mkSite "hybrid/ecies/protoserialization.go" "parseParameters" "proto.Clone(protoParams.GetDemParams().GetAeadDem()).(*tinkpb.KeyTemplate); demTemplate.OutputPrefixType = RAW" KTypeAssert
     "if GetDemParams() == nil { error }; if GetAeadDem() == nil { error } (two lines above)"
-    (CModel set_prefix_raw set_prefix_raw_panics ecies_params_F ecies_params_F_reach ecies_params2 ecies_params_F_same ecies_params2_np);
+    (CModel set_prefix_raw ecies_params_F ecies_params_F_necessary ecies_params2 ecies_params_F_same ecies_params2_np);
   mkSite "hybrid/ecies/protoserialization.go" "parseParameters" "protoserialization.ParseParameters(demTemplate) on an attacker-chosen template (any registered type URL, any value)" KStdlib
     "every parameters parser returns errors (all 29 are transcribed, model/UntrustedParams.v parse_params: total functions whose only checked operation is the assignment through the DEM template pointer of a nested ECIES format, behind its nil test at every nesting level); NewParameters accepts only six DEM parameter sets"
     (CArgued "28 of the 29 transcribed parameters parsers (model/UntrustedParams.v pp_*) are total functions with no Panic constructor in their definition; the one checked operation, set_prefix_raw in ecies_params_of (a nested ECIES format as DEM template), is the previous entry; that the recursion over nested templates never reaches it unguarded is theorem C14_parameters_parsers_never_panic (parse_params_np), named here, not checked by the table");
   mkSite "hybrid/ecies/protoserialization.go" "parsePublicKey" "BigIntBytesToFixedSizeBuffer(x / y, c); slices.Concat([]byte{0x04}, x, y)" KSlice
     "x, y from BigIntBytesToFixedSizeBuffer"
-    (CArgued "the only checked operation is the slice inside fixed_size, which has its own entry (internal/ec/ec.go, CModel); that parsePublicKey of the model never panics is lemma ecies_pub_of_np, named here, not checked by the table");
+    (CArgued "the only checked operation is the slice inside fixed_size, which has its own entry (internal/ec/ec.go, CLemma on the as-written body); that parsePublicKey of the model never panics is lemma ecies_pub_of_np, named here, not checked by the table");
   mkSite "hybrid/ecies/protoserialization.go" "ParseKey (private)" "publicKey.Parameters().(*Parameters).CurveType()" KTypeAssert
     "publicKey was built by this package's NewPublicKey with a *Parameters"
     (CArgued "static construction");
@@ -183,10 +186,10 @@ Definition panic_sites : list site := [
     (CArgued "as above: the slice inside fixed_size (own entry); lemma parse_ecies_priv_np, named here, not checked by the table");
   mkSite "hybrid/ecies/protoserialization.go:185" "publicKeyToProtoPublicKey (serializer)" "publicKey.PublicKeyBytes()[0] != 0x04" KIndex
     "if len(publicKey.PublicKeyBytes()) != 2*coordinateSize+1 { return error } (the statement before)"
-    (CLemma index2 index2_panics serializer_first_byte_F serializer_first_byte_F_reach serializer_first_byte_F_np);
+    (CLemma index2 serializer_first_byte_F serializer_first_byte_F_necessary serializer_first_byte_F_np);
   mkSite "hybrid/ecies/protoserialization.go:188" "publicKeyToProtoPublicKey (serializer)" "publicKey.PublicKeyBytes()[1:], xy[:coordinateSize], xy[coordinateSize:]" KSlice
     "if len(publicKey.PublicKeyBytes()) != 2*coordinateSize+1 { return error } (same test)"
-    (CLemma slice3z slice3z_panics serializer_coords_F serializer_coords_F_reach serializer_coords_F_np);
+    (CLemma slice3z serializer_coords_F serializer_coords_F_necessary serializer_coords_F_np);
   mkSite "hybrid/ecies (primitive constructor)" "NewHybridEncrypt" "xy := PublicKeyBytes()[1:]; xy[:coordinateSize]; xy[coordinateSize:]" KSlice
     "NewPublicKey validated the point"
     (CArgued "the three slices are checked slices inside prim_ok (PEcies false ...) of the model; that they stay in range for every key the parser accepted (the point has 1+2c bytes: lemma ecies_pub_of_ok) is part of theorem C14_parser_and_constructor_never_panic, named here, not checked by the table (no functional form was written for this branch of prim_ok)");
@@ -268,35 +271,54 @@ Definition panic_sites : list site := [
     (CArgued "integer conversions: do not panic; uint32 -> int is lossless on the 64-bit platform of the check, int32(uint32) and int(int32) wrap and the comparison that follows rejects every wrapped value (the same NewParameters as on the key path: theorem C14_wrapping_conversions_are_rejected); directedParams puts every varint field of every format at 0, 2^31-1, 2^31, 2^32-1, 2^32, 2^63, 2^64-1")
 ].
 
-(* Counts of the entries by constructor.  Only the first two kinds carry a
-   checked no-panic fact (of the functional shapes above: an entry of those
-   kinds needs a function that really calls the operation and never panics);
-   the other three carry none.  The numbers say nothing about the completeness
-   of the list. *)
+(* Counts of the entries by constructor.  An entry of the first two kinds is a
+   function with a switchable test such that the listed operation panics on
+   some input with the test off and on none with it on (6 + 9 such functions);
+   that these functions are the Go functions of the entries is reading.  The
+   other three kinds carry no checked fact.  The numbers say nothing about the
+   completeness of the list. *)
 Theorem panic_site_coverage_counts :
   length panic_sites = 81%nat /\
-  count by_model_theorem panic_sites = 7%nat /\
-  count by_site_lemma panic_sites = 10%nat /\
-  count argued_only panic_sites = 57%nat /\
+  count by_model_theorem panic_sites = 6%nat /\
+  count by_site_lemma panic_sites = 9%nat /\
+  count argued_only panic_sites = 59%nat /\
   count is_stdlib panic_sites = 6%nat /\
   count is_harness_only panic_sites = 1%nat.
 Proof. vm_compute. repeat split. Qed.
 
-(* ---- the trivial inhabitants of the EARLIER shapes (fourth audit, /tmp/audc/coq/triv.v)
-   no longer type-check ---- *)
-(* 1. a function that has nothing to do with the operation: the operation is never reached *)
+(* ---- the inhabitants the audits found for the EARLIER shapes, adapted to the
+   guard-switch shape (the switch ignored), are refuted: each fails on
+   `necessary` - with the real operation the function does not panic on any
+   input, i.e. it contains no guard that is needed ---- *)
+(* fifth audit, bogus_c: the raw operation applied to a harmless constant, no guard, the input never reaches it *)
+Definition constant_index_F (_ : bool) (op : bytes * Z -> outcome N) (_ : unit) : outcome N := op ([0%N], 0%Z).
+Goal ~ exists a, constant_index_F false index2 a = Panic.
+Proof. intros [a H]. discriminate H. Qed.
+Fail Definition bogus_c : site :=
+  mkSite "any.go" "anything" "x[i] on attacker data, unguarded" KIndex "none"
+    (CLemma index2 constant_index_F (ex_intro _ tt eq_refl) (fun _ => ltac:(discriminate))).
+(* fifth audit, bogus_b: the CModel analogue, `same` by reflexivity *)
+Definition constant_slice_F (_ : bool) (op : nat * nat * bytes -> outcome bytes) (_ : unit) : outcome bytes := op (0%nat, 0%nat, []).
+Goal ~ exists a, constant_slice_F false slice3 a = Panic.
+Proof. intros [a H]. discriminate H. Qed.
+Fail Definition bogus_b : site :=
+  mkSite "any.go" "anything" "b[attacker:]" KSlice "none"
+    (CModel slice3 constant_slice_F (ex_intro _ tt eq_refl) (fun _ : unit => slice3 (0%nat, 0%nat, [])) (fun _ => eq_refl)
+            (fun _ => ltac:(discriminate))).
+(* fifth audit, bogus_d: BigIntBytesToFixedSizeBuffer over the MODEL's slice with every test deleted never panics,
+   because the model subtracts in nat (that entry is now the CLemma over slice_z with Z arithmetic) *)
+Definition fixed_size_noguard (_ : bool) (sl : nat * nat * bytes -> outcome bytes) (p : bytes * nat) : outcome bytes :=
+  sl ((length (fst p) - snd p)%nat, length (fst p), fst p).
+Goal ~ exists a, fixed_size_noguard false slice3 a = Panic.
+Proof.
+  intros [p H]. unfold fixed_size_noguard, slice3, slice in H. cbn [fst snd] in H.
+  replace (Nat.leb (length (fst p) - snd p) (length (fst p))) with true in H by (symmetry; apply PeanoNat.Nat.leb_le, PeanoNat.Nat.le_sub_l).
+  rewrite PeanoNat.Nat.leb_refl in H. discriminate H.
+Qed.
+(* fourth audit, bogus1: a function that has nothing to do with the operation *)
+Definition unrelated_F (_ : bool) (_ : option template -> outcome template) (_ : unit) : outcome unit := Err.
+Goal ~ exists a, unrelated_F false set_prefix_raw a = Panic.
+Proof. intros [a H]. discriminate H. Qed.
 Fail Definition bogus1 : site :=
   mkSite "any.go" "anything" "x[i] on attacker data, unguarded" KIndex "none"
-    (CModel set_prefix_raw set_prefix_raw_panics (fun _ (_ : unit) => @Err unit)
-            (ex_intro _ tt eq_refl) (fun _ : unit => @Err unit) (fun _ => eq_refl) (fun _ => ltac:(discriminate))).
-Goal ~ exists a : unit, (fun (_ : option template -> outcome template) (_ : unit) => @Err unit) always_panic a = Panic.
-Proof. intros [a H]. discriminate H. Qed.
-(* 2. a guard nobody establishes (False): there is no guard argument any more; the old term is ill-typed *)
-Fail Definition bogus2 : site :=
-  mkSite "any.go" "anything" "x[i] on attacker data, unguarded" KIndex "none"
-    (CLemma set_prefix_raw (ex_intro _ None eq_refl) (fun _ => False) (fun a (H : False) => match H with end)).
-(* 3. raw applied directly with "guard = complement of its panic set": the body must contain the test *)
-Definition toy (b : bool) : outcome unit := if b then Panic else Ok tt.
-Fail Definition bogus3 : site :=
-  mkSite "any.go" "anything" "anything" KIndex "none"
-    (CLemma toy (ex_intro _ true eq_refl) (fun op b => op b) (ex_intro _ true eq_refl) (fun b => ltac:(discriminate))).
+    (CModel set_prefix_raw unrelated_F (ex_intro _ tt eq_refl) (fun _ : unit => @Err unit) (fun _ => eq_refl) (fun _ => ltac:(discriminate))).
